@@ -168,11 +168,48 @@ func Setup(key string, f func() any) any {
 	return v
 }
 
+var tempDir string
+
+// TempDir returns a directory private to the current replay case; harnesses configure it as
+// the WAF's temporary directory so that LiveFiles can count what is left behind.
+func TempDir() string {
+	if tempDir == "" {
+		d, err := os.MkdirTemp("", "vpreplay")
+		if err != nil {
+			panic(err)
+		}
+		tempDir = d
+	}
+	return tempDir
+}
+
+// LiveFiles is the number of files currently present in TempDir.
+func LiveFiles() int {
+	if tempDir == "" {
+		return 0
+	}
+	es, _ := os.ReadDir(tempDir)
+	return len(es)
+}
+
+// FaultInjection turns on file-system fault injection (at most max failing calls per path).
+// Only the symbolic executor can inject faults; natively no call fails, so counterexamples that
+// need a fault are validated by the engine's file model only (reported as such).
+func FaultInjection(max int) {}
+
+// Faults is the number of injected file-system failures on this path.
+func Faults() int { return 0 }
+
 // Symbolic reports whether the harness runs under the symbolic executor.
 func Symbolic() bool { return false }
 
 func runOne(c *Case, fn func()) (res Result) {
 	cur, pos, obs, reached = c, 0, nil, map[string]bool{}
+	setupCache = map[string]any{}
+	if tempDir != "" {
+		os.RemoveAll(tempDir)
+		tempDir = ""
+	}
 	res.Harness = c.Harness
 	defer func() {
 		res.Obs = obs
